@@ -122,6 +122,14 @@ class Ctx:
         self.deadline = deadline
         self.quick = tier == 'quick'
 
+    def corpus(self):
+        """witnesses of recorded findings (known and fixed) + minimised past failures; run first"""
+        out = [f['witness'] for f in load_known() if f.get('property') == self.pid and 'witness' in f]
+        p = os.path.join(VERIF, 'corpus', self.pid + '.jsonl')
+        if os.path.exists(p):
+            out += [json.loads(l) for l in open(p) if l.strip()]
+        return out
+
     def time_left(self):
         return self.deadline - time.time()
 
